@@ -63,6 +63,23 @@ def verify_one(args):
             fn, mod, _ = src.find(c)
             ex = Executor(reg, c, fn, mod, src, aliases=getattr(c, "aliases", None))
             obls, covers = ex.run()
+            if getattr(c, "complete", None):
+                # second pass for the completeness clause (pyvc/stmts.py run): keep only what belongs to it
+                ex2 = Executor(reg, c, fn, mod, src, aliases=getattr(c, "aliases", None))
+                ex2.complete_mode = True
+                obls2, covers2 = ex2.run()
+                nb = {k: len(v.invariant) for k, v in c.loops.items()}
+                for o in obls2:
+                    tail = o.oid.split("/", 1)[1]
+                    keep = tail.endswith(".complete") or "lemma:" in tail or "ghost_assert" in tail
+                    m = __import__("re").match(r"loop#(\d+)\.inv(\d+)\.", tail)
+                    if m and int(m.group(2)) >= nb.get(int(m.group(1)), 0):
+                        keep = True
+                    if keep:
+                        o.oid = o.oid + "@complete"
+                        obls.append(o)
+                covers += [cv for cv in covers2 if cv[0].endswith("cover.complete")]
+                ex.assumption_log |= ex2.assumption_log
         except (Untranslatable, ContractError, MemoryError, TimeoutError) as e:
             signal.alarm(0)
             out["undecided_reason"] = f"{type(e).__name__}: {e}"
